@@ -196,17 +196,22 @@ def splines(chk, P, rule="C07.O6"):
     ap = I.instantiate(sp, [W.param("end"), Num(ep.sym("attach"))], {}, None)
 
     class Spl(object):
+        """a spline object as Custom_SplinePotential sees it: two points and a callable with derivatives"""
         def get_detach_point(self, J):
             return dp
 
         def get_attach_point(self, J):
             return ap
-    splv = W.param("spline")
-    # a spline object: opaque callable that knows its two points
-    holder = InstV(P.cls(mod, "Exp_Spline"))
-    holder.attrs["_detach_point"] = dp
-    holder.attrs["_attach_point"] = ap
-    holder.attrs["_spline_callable"] = W.param("spline")
+
+        def m___call__(self, J, args, kwargs):
+            return J.call(W.param("spline"), [args[0]], {})
+
+        def m_deriv(self, J, args, kwargs):
+            return J.call(DerivV(W.param("spline"), 1), [args[0]], {})
+
+        def m_deriv2(self, J, args, kwargs):
+            return J.call(DerivV(W.param("spline"), 2), [args[0]], {})
+    holder = PyObjV(Spl())
     pot = I.instantiate(cls, [holder], {}, None)
     r = Num(ep.sym("r"))
     val = I.call(pot, [r], {})
@@ -218,7 +223,7 @@ def splines(chk, P, rule="C07.O6"):
         dv = I.call(I.getattr(pot, meth), [r], {})
         ld = phi_leaves(dv)
         same = [c for c, _ in lv] == [c for c, _ in ld]
-        chk.ob(rule, "%s classifies r into the same regions as __call__" % meth, same, site=cls.lookup("_" + meth).site(),
+        chk.ob(rule, "%s classifies r into the same regions as __call__" % meth, same, site=cls.lookup("__call__").site(),
                found=[c for c, _ in ld], expect=[c for c, _ in lv], key=rule + "|custom|%s-regions" % meth)
         if same:
             for (c, v0), (_, v1) in zip(lv, ld):
@@ -227,30 +232,51 @@ def splines(chk, P, rule="C07.O6"):
                     want = ep.D(want, "r")
                 ok, why = ep.equal(I.num(v1), want)
                 chk.ob(rule, "%s in region %s is the derivative of that region's function" % (meth, _region(c)), ok,
-                       site=cls.lookup("_" + meth).site(), found=why or v1, expect=want,
+                       site=cls.lookup("__call__").site(), found=why or v1, expect=want,
                        key=rule + "|custom|%s|%s" % (meth, _region(c)))
-    # Exp_Spline delegates attribute for attribute
+    # Exp_Spline / Buck4_Spline built through their constructors (linear solve captured: coefficients are symbols)
+    from .c10 import numpy_model, SolveCapture, _point_syms
+    I2 = F.make_interp(P)
+    numpy_model(I2, SolveCapture(), "B")
+
+    def noshift(cond):
+        if isinstance(cond, Cond) and ((cond.kind == "cmp" and cond.args[0] == "<=") or cond.kind == "or"):
+            return False
+        return None
+    noshift.text = "Exp_Spline positivity shift not taken (checked in C10.O2)"
+    I2.assumption_fns.append(noshift)
+    ecls = P.cls(mod, "Exp_Spline")
+    es = I2.instantiate(ecls, [_point_syms(I2, P, "s", "sx"), _point_syms(I2, P, "e", "ex")], {}, None)
+    prev = None
     for meth, order in (("__call__", 0), ("deriv", 1), ("deriv2", 2)):
-        v = I.num(I.call(I.getattr(holder, meth), [r], {}))
-        want = ep.app(("param", "spline"), [ep.sym("r")], dorder=order)
-        chk.ob(rule, "Exp_Spline.%s delegates to the spline callable's %s" % (meth, meth), ep.equal(v, want)[0],
-               site=holder.ci.lookup(meth).site(), found=v, expect=want, key=rule + "|exp_spline|%s" % meth)
+        v = I2.num(I2.call(I2.getattr(es, meth), [r], {}))
+        if order == 0:
+            ok = v.depends_on("r") and v.depends_on("B5")
+            chk.ob(rule, "Exp_Spline.__call__ is a function of r and of the solved coefficients", ok, site=ecls.lookup(meth).site(), found=v,
+                   expect="exp(B0 + ... + B5 r^5) + C", key=rule + "|exp_spline|%s" % meth)
+        else:
+            ok, why = ep.equal(v, ep.D(prev, "r"))
+            chk.ob(rule, "Exp_Spline.%s is the derivative of Exp_Spline.%s" % (meth, "__call__" if order == 1 else "deriv"), ok,
+                   site=ecls.lookup(meth).site(), found=why or v, expect=ep.D(prev, "r"), key=rule + "|exp_spline|%s" % meth)
+        prev = v
     # Buck4_Spline: one selector for all three
     b4 = P.cls(mod, "Buck4_Spline")
-    binst = InstV(b4)
-    binst.attrs["_r_min"] = Num(ep.sym("r_min"))
-    binst.attrs["_spline5"] = W.param("spline5")
-    binst.attrs["_spline3"] = W.param("spline3")
+    I3 = F.make_interp(P)
+    numpy_model(I3, SolveCapture(), "u")
+    binst = I3.instantiate(b4, [_point_syms(I3, P, "s", "r_dp"), _point_syms(I3, P, "e", "r_ap"), Num(ep.sym("r_min"))], {}, None)
+    pieces = [I3.num(I3.call(I3.getattr(binst, nm), [r], {})) for nm in ("spline5", "spline3")]
     vals = {}
     for meth, order in (("__call__", 0), ("deriv", 1), ("deriv2", 2)):
-        v = I.call(I.getattr(binst, meth), [r], {})
+        v = I3.call(I3.getattr(binst, meth), [r], {})
         leaves = phi_leaves(v)
         vals[meth] = leaves
         ok = len(leaves) == 2
         if ok:
-            for (c, leaf), which in zip(leaves, ("spline5", "spline3")):
-                want = ep.app(("param", which), [ep.sym("r")], dorder=order)
-                ok = ok and ep.equal(I.num(leaf), want)[0]
+            for (c, leaf), piece in zip(leaves, pieces):
+                want = piece
+                for _ in range(order):
+                    want = ep.D(want, "r")
+                ok = ok and ep.equal(I3.num(leaf), want)[0]
         ok = ok and [c for c, _ in leaves] == [c for c, _ in vals["__call__"]]
         chk.ob(rule, "Buck4_Spline.%s uses the quintic below r_min and the cubic above, same test as __call__" % meth, ok,
                site=b4.lookup(meth).site(), found=v, expect="phi(r < r_min ? spline5%s(r) : spline3%s(r))" % ("'" * order, "'" * order),
@@ -287,22 +313,28 @@ def tableform_derivs(chk, P, rule):
     J = F.make_interp(P)
     tf = P.cls("atsim.potentials.tableforms", "Cubic_Spline_Table_Form")
     inst = J.instantiate(tf, [W.param("x"), W.param("y")], {}, None)
-    interp = inst.attrs.get("_interpolant")
-    d = inst.attrs.get("_deriv")
-    d2 = inst.attrs.get("_deriv2")
+    # through the public surface: the documented .interpolant property and the three evaluation methods
+    interp = J.getattr(inst, "interpolant")
     site = tf.lookup("__init__").site()
-    ok = isinstance(interp, Opaque) and isinstance(d, Opaque) and d.path == ("call", ("attr", interp.path, "derivative"), ())
-    chk.ob(rule, "table form: _deriv = interpolant.derivative() (first derivative, no order argument)", ok, site=site, found=d,
-           expect="interpolant.derivative()", key=rule + "|tableform|deriv")
-    ok2 = isinstance(d, Opaque) and isinstance(d2, Opaque) and d2.path == ("call", ("attr", d.path, "derivative"), ())
-    chk.ob(rule, "table form: _deriv2 = _deriv.derivative() (first derivative of the first derivative)", ok2, site=site, found=d2,
-           expect="_deriv.derivative()", key=rule + "|tableform|deriv2")
     x = Num(ep.sym("x"))
-    for meth, obj in (("__call__", interp), ("deriv", d), ("deriv2", d2)):
+    got = {}
+    for meth in ("__call__", "deriv", "deriv2"):
         v = J.call(J.getattr(inst, meth), [x], {})
-        ok = isinstance(obj, Opaque) and isinstance(v, Num) and ep.equal(v.rf, ep.app(obj.path, [ep.sym("x")]))[0]
-        chk.ob(rule, "table form %s evaluates its own spline object at x" % meth, ok, site=tf.lookup(meth).site(), found=v,
-               expect="%s(x)" % (obj,), key=rule + "|tableform|%s-eval" % meth)
+        got[meth] = v
+    ipath = interp.path if isinstance(interp, Opaque) else None
+    dpath = ("call", ("attr", ipath, "derivative"), ())
+    d2path = ("call", ("attr", dpath, "derivative"), ())
+
+    def is_app(v, path):
+        return ipath is not None and isinstance(v, Num) and ep.equal(v.rf, ep.app(path, [ep.sym("x")]))[0]
+    chk.ob(rule, "table form: deriv evaluates interpolant.derivative() (first derivative, no order argument)", is_app(got["deriv"], dpath),
+           site=site, found=got["deriv"], expect="interpolant.derivative()(x)", key=rule + "|tableform|deriv")
+    chk.ob(rule, "table form: deriv2 evaluates interpolant.derivative().derivative() (first derivative of the first derivative)",
+           is_app(got["deriv2"], d2path), site=site, found=got["deriv2"], expect="interpolant.derivative().derivative()(x)",
+           key=rule + "|tableform|deriv2")
+    for meth, path in (("__call__", ipath), ("deriv", dpath), ("deriv2", d2path)):
+        chk.ob(rule, "table form %s evaluates its own spline object at the argument x" % meth, is_app(got[meth], path),
+               site=tf.lookup(meth).site(), found=got[meth], expect="<spline object>(x)", key=rule + "|tableform|%s-eval" % meth)
 
 
 def force(chk, P):
